@@ -1,6 +1,457 @@
+/-
+  C11 — partition is an exact split; collapse conserves what it aggregates.
+
+  Model of `Table.partition` (function / `id→group` dict / `group→[ids]` dict, `ignore_none`,
+  tupling of unhashable labels, first-occurrence group order, `remove_empty`), one-to-one
+  `Table.collapse` (per-part sum, division by the member count when `norm`, `min_group_size`,
+  `collapsed_ids` metadata) and one-to-many `collapse` (`md_count`, sorted bins, `add`/`divide`,
+  `strict`, pathway metadata).
+
+  The code treats `axis='sample'` as: take the columns, work on them as rows, transpose back
+  (`_conv_to_self_type(values, transpose=True)`).  The model does the same: every operation is
+  defined on the orientation in which the partitioned axis is the row axis (`orient`), and the
+  result is oriented back.  The labeller's RESULT per ID is an input of the model.
+
+  `holds…` are declarative predicates on observations: IDs, cells looked up by ID, metadata by ID.
+-/
 import BiomModel.Codec
 open Lean
+
 namespace Biom.C11
-/-- stub: not built yet -/
-def handle (_req : Json) : Codec.R Json := .error "C11: model not built yet"
+
+variable {α : Type}
+
+/-! ### labels -/
+
+/-- what a labelling function may return (`list` = an unhashable list, `tup` = a tuple) -/
+inductive Label where
+  | none
+  | str (s : String)
+  | int (i : Int)
+  | tup (l : List String)
+  | list (l : List String)
+  deriving DecidableEq, Repr, Inhabited
+
+/-- `if not isinstance(part, Hashable): part = tuple(part)` -/
+def Label.key : Label → Label
+  | .list l => .tup l
+  | x => x
+
+/-- `if ignore_none and part is None: continue`, then the tupling -/
+def eff (ignoreNone : Bool) (l : Label) : Option Label :=
+  if ignoreNone && decide (l = Label.none) then Option.none else some l.key
+
+/-- the three accepted forms of `f`; for a function the per-ID results are given -/
+inductive Labeler where
+  | results (ls : List Label)
+  | idToGroup (m : List (Id × String))
+  | groupToIds (m : List (String × List Id))
+  deriving Repr
+
+/-- `mapping[id_] = grp` in dict order: the last group listing an ID wins -/
+def lastGroup (m : List (String × List Id)) (id : Id) : Option String :=
+  ((m.reverse.find? (fun g => g.2.contains id))).map (·.1)
+
+def optLabel : Option String → Label
+  | some g => .str g
+  | Option.none => .none
+
+/-- the label of every ID of the axis, in axis order (`part_f(id_, md)`) -/
+def Labeler.labels (ids : List Id) : Labeler → Except Err (List Label)
+  | .results ls => .ok ls
+  | .idToGroup [] => .error .index            -- `list(f.values())[0]` on an empty dict
+  | .idToGroup m => .ok (ids.map (fun id => optLabel (m.lookup id)))
+  | .groupToIds [] => .error .index
+  | .groupToIds m => .ok (ids.map (fun id => optLabel (lastGroup m id)))
+
+/-! ### orientation -/
+
+def orient (ax : Axis) (t : Table α) : Table α :=
+  match ax with
+  | .obs => t
+  | .samp => t.transpose
+
+/-! ### partition -/
+
+/-- distinct elements in order of first occurrence (insertion order of a Python dict) -/
+def firsts {κ : Type} [DecidableEq κ] : List κ → List κ
+  | [] => []
+  | x :: xs => x :: (firsts xs).filter (fun y => decide (y ≠ x))
+
+/-- keep the vectors (rows) whose mask bit is set, with their IDs and metadata -/
+def sel (t : Table α) (mask : List Bool) : Table α :=
+  { t with obs := filterMask t.obs mask, rows := filterMask t.rows mask,
+           omd := t.omd.map (fun m => filterMask m mask) }
+
+def maskOf {κ : Type} [DecidableEq κ] (ks : List (Option κ)) (k : κ) : List Bool :=
+  ks.map (fun o => decide (o = some k))
+
+def nzRow [Zero α] [DecidableEq α] (r : List α) : Bool := r.any (fun v => decide (v ≠ 0))
+
+/-- per column: does any row hold a non-zero there -/
+def colNZ [Zero α] [DecidableEq α] (n : Nat) : List (List α) → List Bool
+  | [] => List.replicate n false
+  | r :: rs => List.zipWith (fun a b => a || b) (r.map (fun v => decide (v ≠ 0))) (colNZ n rs)
+
+/-- `remove_empty(axis='whole')`: drop the all-zero vectors of both axes -/
+def removeEmpty [Zero α] [DecidableEq α] (t : Table α) : Table α :=
+  let cm := colNZ t.samp.length t.rows
+  let rm := t.rows.map nzRow
+  { obs := filterMask t.obs rm, rows := (filterMask t.rows rm).map (fun r => filterMask r cm),
+    omd := t.omd.map (fun m => filterMask m rm),
+    samp := filterMask t.samp cm, smd := t.smd.map (fun m => filterMask m cm), ttype := t.ttype }
+
+/-- partition of the row axis by effective labels (`none` = the ID is skipped) -/
+def partO {κ : Type} [DecidableEq κ] (t : Table α) (ks : List (Option κ)) : List (κ × Table α) :=
+  (firsts (ks.filterMap id)).map (fun k => (k, sel t (maskOf ks k)))
+
+def partitionO [Zero α] [DecidableEq α] (t : Table α) (ls : List Label) (removeE ignoreNone : Bool) :
+    List (Label × Table α) :=
+  let ps := partO t (ls.map (eff ignoreNone))
+  if removeE then ps.map (fun p => (p.1, removeEmpty p.2)) else ps
+
+/-- `Table.partition(f, axis, remove_empty, ignore_none)` as a list of (label, table) -/
+def partition [Zero α] [DecidableEq α] (t : Table α) (ax : Axis) (f : Labeler) (removeE ignoreNone : Bool) :
+    Except Err (List (Label × Table α)) := do
+  let ls ← f.labels (t.ids ax)
+  pure ((partitionO (orient ax t) ls removeE ignoreNone).map (fun p => (p.1, orient ax p.2)))
+
+/-! ### one-to-one collapse (values are rationals) -/
+
+def addV (a b : List Rat) : List Rat := List.zipWith (· + ·) a b
+
+/-- `table.sum(other axis)` of a part: element-wise sum of its vectors -/
+def sumRows (n : Nat) (rows : List (List Rat)) : List Rat := rows.foldr addV (List.replicate n 0)
+
+/-- the ID a label becomes in the collapsed table -/
+def Label.toId : Label → Id
+  | .none => "None"
+  | .str s => s
+  | .int i => toString i
+  | .tup l => "(" ++ ", ".intercalate l ++ ")"
+  | .list l => "[" ++ ", ".intercalate l ++ "]"
+
+def idSep : String := "\u001f"
+/-- canonical text of a `collapsed_ids` list (the harness canonicalises the real list the same way) -/
+def joinIds (ids : List Id) : String := idSep.intercalate ids
+def cidsMd (ids : List Id) : Md := [("collapsed_ids", joinIds ids)]
+
+def reduceRow (norm : Bool) (n : Nat) (p : Table Rat) : List Rat :=
+  let s := sumRows n p.rows
+  if norm then s.map (fun v => v / (p.obs.length : Rat)) else s
+
+def collapseO (t : Table Rat) (ls : List Label) (norm : Bool) (minSize : Nat) (icm : Bool) : Table Rat :=
+  let kept := (partO t (ls.map (fun l => some l.key))).filter (fun p => decide (minSize ≤ p.2.obs.length))
+  { obs := kept.map (fun p => p.1.toId),
+    rows := kept.map (fun p => reduceRow norm t.samp.length p.2),
+    omd := if icm && !kept.isEmpty then some (kept.map (fun p => cidsMd p.2.obs)) else none,
+    samp := t.samp, smd := t.smd, ttype := t.ttype }
+
+def collapse (t : Table Rat) (ax : Axis) (f : Labeler) (norm : Bool) (minSize : Nat) (icm : Bool) :
+    Except Err (Table Rat) := do
+  let ls ← f.labels (t.ids ax)
+  pure (orient ax (collapseO (orient ax t) ls norm minSize icm))
+
+/-! ### one-to-many collapse -/
+
+/-- what `next(md_iter)` did, call by call, until `StopIteration`: `none` = it raised `IndexError`,
+`some (pathway, bin)` = it returned that pair (the pathway as canonical text) -/
+abbrev Events := List (Option (String × String))
+
+/-- the pairs that were delivered (non-strict mode ignores the `IndexError`s) -/
+def items (evs : Events) : List (String × String) := evs.filterMap id
+
+def insertS (x : String) : List String → List String
+  | [] => [x]
+  | y :: ys => if y < x then y :: insertS x ys else x :: y :: ys
+
+/-- `sorted(new_md)` -/
+def sortS (l : List String) : List String := l.foldr insertS []
+
+/-- how many times a vector lists bin `b` -/
+def mult (b : String) (it : List (String × String)) : Nat := (it.filter (fun p => decide (p.2 = b))).length
+
+/-- `new_md[partition] = pathway`: the last pathway written for the bin -/
+def lastPath (all : List (String × String)) (b : String) : String :=
+  ((all.reverse.find? (fun p => decide (p.2 = b))).map (·.1)).getD ""
+
+/-- the factor with which a vector enters bin `b`: once per listing, divided by `md_count` in
+`divide` mode -/
+def weight (divide : Bool) (b : String) (it : List (String × String)) : Rat :=
+  if divide then (mult b it : Rat) / (it.length : Rat) else (mult b it : Rat)
+
+def otmO (t : Table Rat) (evss : List Events) (divide strict icm : Bool) (mdKey : String) :
+    Except Err (Table Rat) :=
+  if t.omd.isNone then .error .type                 -- `zip(ids, None)`
+  else if strict && evss.any (fun evs => evs.any Option.isNone) then .error .index
+  else
+    let its := evss.map items
+    let all := its.flatten
+    let bins := sortS (firsts (all.map (·.2)))
+    .ok { obs := bins,
+          rows := bins.map (fun b =>
+            sumRows t.samp.length ((t.rows.zip its).map (fun ri => ri.1.map (fun v => weight divide b ri.2 * v)))),
+          omd := if icm && !bins.isEmpty then some (bins.map (fun b => [(mdKey, lastPath all b)])) else none,
+          samp := t.samp, smd := t.smd, ttype := t.ttype }
+
+def otm (t : Table Rat) (ax : Axis) (evss : List Events) (divide strict icm : Bool) (mdKey : String) :
+    Except Err (Table Rat) := do
+  let r ← otmO (orient ax t) evss divide strict icm mdKey
+  pure (orient ax r)
+
+/-! ### The property, stated on observations only
+
+All predicates speak about the orientation in which the partitioned / collapsed axis is the row
+axis (`orient` is applied to the input and to every observed table before they are evaluated);
+the well-formedness and shape of the observed tables are checked before orienting them.  -/
+
+abbrev Clauses := List (String × Bool)
+def Clauses.ok (c : Clauses) : Bool := c.all (·.2)
+def Clauses.firstFail (c : Clauses) : Option String := (c.find? (fun p => !p.2)).map (·.1)
+
+/-- is `a` a sub-list of `b` (same relative order) -/
+def subl : List Id → List Id → Bool
+  | [], _ => true
+  | _ :: _, [] => false
+  | a :: as, b :: bs => if a = b then subl as bs else subl (a :: as) bs
+
+/-- the IDs carrying label `k`, in the table's order, looked up by ID -/
+def members {κ : Type} [DecidableEq κ] (ids : List Id) (ks : List (Option κ)) (k : κ) : List Id :=
+  ids.filter (fun id => decide (lookupBy ids ks id = some (some k)))
+
+def rowNZ [Zero α] [DecidableEq α] (t : Table α) (id : Id) : Bool :=
+  match t.row? id with
+  | some r => nzRow r
+  | none => false
+
+def cellNZ [Zero α] [DecidableEq α] (t : Table α) (o s : Id) : Bool :=
+  match t.cell? o s with
+  | some v => decide (v ≠ 0)
+  | none => false
+
+/-- one yielded part against the table it was cut from -/
+def partClauses [Zero α] [DecidableEq α] (t : Table α) (ks : List (Option Label)) (removeE : Bool)
+    (k : Label) (p : Table α) : Clauses :=
+  let mem := members t.obs ks k
+  let ids := if removeE then mem.filter (rowNZ t) else mem
+  [ ("part.wf", p.wfb),
+    ("part.ids", decide (p.obs = ids)),
+    ("part.other",
+      if removeE then subl p.samp t.samp &&
+        t.samp.all (fun s => p.samp.contains s == mem.any (fun id => cellNZ t id s))
+      else decide (p.samp = t.samp)),
+    ("part.cells", p.obs.all (fun id => p.samp.all (fun s => decide (p.cell? id s = t.cell? id s)))),
+    ("part.md", p.obs.all (fun id => decide (p.mdOf? .obs id = t.mdOf? .obs id)) &&
+                p.samp.all (fun s => decide (p.mdOf? .samp s = t.mdOf? .samp s))),
+    ("part.type", decide (p.ttype = t.ttype)) ]
+
+def holdsPartitionO [Zero α] [DecidableEq α] (t : Table α) (ls : List Label) (removeE ignoreNone : Bool)
+    (out : List (Label × Table α)) : Clauses :=
+  let ks := ls.map (eff ignoreNone)
+  [ ("part.labels.distinct", decide (out.map (·.1)).Nodup),
+    ("part.labels.kept", out.all (fun p => ks.contains (some p.1))),
+    ("part.labels.cover", ks.all (fun o => match o with
+        | some k => (out.map (·.1)).contains k
+        | Option.none => true)) ]
+  ++ out.flatMap (fun p => partClauses t ks removeE p.1 p.2)
+
+/-- Σ over IDs of a by-ID quantity -/
+def sumOver (ids : List Id) (f : Id → Rat) : Rat := sumL (ids.map f)
+
+def cellD (t : Table Rat) (o s : Id) : Rat := (t.cell? o s).getD 0
+
+def holdsCollapseO (t : Table Rat) (ls : List Label) (norm : Bool) (minSize : Nat) (icm : Bool)
+    (out : Table Rat) : Clauses :=
+  let ks := ls.map (fun l => some l.key)
+  let keys := (firsts (ls.map Label.key)).filter (fun k => decide (minSize ≤ (members t.obs ks k).length))
+  [ ("collapse.wf", out.wfb),
+    ("collapse.ids.distinct", decide out.obs.Nodup),
+    ("collapse.ids", keys.all (fun k => out.obs.contains k.toId) &&
+                     out.obs.all (fun id => (keys.map Label.toId).contains id)),
+    ("collapse.vector", keys.all (fun k =>
+        let mem := members t.obs ks k
+        t.samp.all (fun s =>
+          let total := sumOver mem (fun id => cellD t id s)
+          decide (out.cell? k.toId s = some (if norm then total / (mem.length : Rat) else total))))),
+    ("collapse.ids_md",
+      if icm then keys.all (fun k => decide (out.mdOf? .obs k.toId = some (cidsMd (members t.obs ks k))))
+      else decide (out.omd = none)),
+    ("collapse.other", decide (out.samp = t.samp) && decide (out.smd = t.smd) && decide (out.ttype = t.ttype)),
+    ("collapse.conserve",
+      if !norm && decide (minSize ≤ 1) then
+        t.samp.all (fun s => decide (sumOver out.obs (fun id => cellD out id s) = sumOver t.obs (fun id => cellD t id s)))
+      else true) ]
+
+/-- the delivered pairs of an ID, looked up by ID -/
+def itemsOf (t : Table Rat) (evss : List Events) (id : Id) : List (String × String) :=
+  items ((lookupBy t.obs evss id).getD [])
+
+def isErr (out : Except Err (Table Rat)) (e : Err) : Bool :=
+  match out with
+  | .error e' => decide (e' = e)
+  | .ok _ => false
+
+def holdsOtmO (t : Table Rat) (evss : List Events) (divide strict icm : Bool) (mdKey : String)
+    (out : Except Err (Table Rat)) : Clauses :=
+  if t.omd.isNone then [("otm.needs_metadata", isErr out .type)]
+  else if strict && evss.any (fun evs => evs.any Option.isNone) then
+    [("otm.strict", isErr out .index)]
+  else match out with
+  | .error _ => [("otm.no_error", false)]
+  | .ok r =>
+    let all := (t.obs.map (itemsOf t evss)).flatten
+    let bins := all.map (·.2)
+    [ ("otm.wf", r.wfb),
+      ("otm.bins.distinct", decide r.obs.Nodup),
+      ("otm.bins", bins.all (fun b => r.obs.contains b) && r.obs.all (fun b => bins.contains b)),
+      ("otm.cell", r.obs.all (fun b => t.samp.all (fun s =>
+          decide (r.cell? b s = some (sumOver t.obs (fun id => weight divide b (itemsOf t evss id) * cellD t id s)))))),
+      ("otm.md",
+        if icm then r.obs.all (fun b => decide (r.mdOf? .obs b = some [(mdKey, lastPath all b)]))
+        else decide (r.omd = none)),
+      ("otm.other", decide (r.samp = t.samp) && decide (r.smd = t.smd) && decide (r.ttype = t.ttype)),
+      ("otm.divide.conserve",
+        if divide then
+          t.samp.all (fun s => decide (sumOver r.obs (fun b => cellD r b s) =
+            sumOver (t.obs.filter (fun id => !(itemsOf t evss id).isEmpty)) (fun id => cellD t id s)))
+        else true) ]
+
+/-! ### requests -/
+
+inductive Op where
+  | partition (f : Labeler) (removeE ignoreNone : Bool)
+  | collapse (f : Labeler) (norm : Bool) (minSize : Nat) (icm : Bool)
+  | otm (evss : List Events) (divide strict icm : Bool) (mdKey : String)
+  deriving Repr
+
+/-- what was observed on the real code (tables as they came out, not yet oriented) -/
+inductive Out where
+  | parts (ps : List (Label × Table Rat))
+  | table (t : Table Rat) (shape : Nat × Nat)
+  | error (e : Err)
+  deriving Repr
+
+def model (t : Table Rat) (ax : Axis) : Op → Out
+  | .partition f re ign =>
+    match partition t ax f re ign with
+    | .ok ps => .parts ps
+    | .error e => .error e
+  | .collapse f norm ms icm =>
+    match collapse t ax f norm ms icm with
+    | .ok r => .table r (r.obs.length, r.samp.length)
+    | .error e => .error e
+  | .otm evss divide strict icm key =>
+    match otm t ax evss divide strict icm key with
+    | .ok r => .table r (r.obs.length, r.samp.length)
+    | .error e => .error e
+
+def shapeOk (r : Table Rat) (shape : Nat × Nat) : Bool :=
+  r.wfb && decide (shape = (r.obs.length, r.samp.length))
+
+/-- the whole predicate: request (table, axis, operation with the labeller's results) against
+the observed outcome -/
+def clauses (t : Table Rat) (ax : Axis) (op : Op) (out : Out) : Clauses :=
+  match op, out with
+  | .partition f re ign, .parts ps =>
+    match f.labels (t.ids ax) with
+    | .error _ => [("part.must_refuse", false)]
+    | .ok ls =>
+      [("part.raw_wf", ps.all (fun p => p.2.wfb))] ++
+      holdsPartitionO (orient ax t) ls re ign (ps.map (fun p => (p.1, orient ax p.2)))
+  | .partition f _ _, .error e =>
+    match f.labels (t.ids ax) with
+    | .error e' => [("part.error_kind", decide (e = e'))]
+    | .ok _ => [("part.no_error", false)]
+  | .collapse f norm ms icm, .table r shape =>
+    match f.labels (t.ids ax) with
+    | .error _ => [("collapse.must_refuse", false)]
+    | .ok ls => [("collapse.shape", shapeOk r shape)] ++ holdsCollapseO (orient ax t) ls norm ms icm (orient ax r)
+  | .collapse f _ _ _, .error e =>
+    match f.labels (t.ids ax) with
+    | .error e' => [("collapse.error_kind", decide (e = e'))]
+    | .ok _ => [("collapse.no_error", false)]
+  | .otm evss divide strict icm key, .table r shape =>
+    [("otm.shape", shapeOk r shape)] ++ holdsOtmO (orient ax t) evss divide strict icm key (.ok (orient ax r))
+  | .otm evss divide strict icm key, .error e => holdsOtmO (orient ax t) evss divide strict icm key (.error e)
+  | _, _ => [("outcome.kind", false)]
+
+def holds (t : Table Rat) (ax : Axis) (op : Op) (out : Out) : Bool := (clauses t ax op out).ok
+
+/-! ### JSON glue -/
+open Codec
+
+def asLabel (j : Json) : R Label :=
+  match j with
+  | .null => pure .none
+  | v => do
+    match optFld v "s", optFld v "i", optFld v "t", optFld v "l" with
+    | some s, _, _, _ => pure (.str (← asStr s))
+    | _, some i, _, _ => pure (.int (← asInt i))
+    | _, _, some t, _ => pure (.tup (← asList asStr t))
+    | _, _, _, some l => pure (.list (← asList asStr l))
+    | _, _, _, _ => .error "bad label"
+
+def labelToJson : Label → Json
+  | .none => .null
+  | .str s => Json.mkObj [("s", .str s)]
+  | .int i => Json.mkObj [("i", toJson i)]
+  | .tup l => Json.mkObj [("t", strsToJson l)]
+  | .list l => Json.mkObj [("l", strsToJson l)]
+
+def asPair (f : Json → R β) (g : Json → R γ) (j : Json) : R (β × γ) := do
+  match (← asArr j) with
+  | [a, b] => pure ((← f a), (← g b))
+  | _ => .error "pair expected"
+
+def asLabeler (j : Json) : R Labeler := do
+  match (← strF j "kind") with
+  | "results" => pure (.results (← listF asLabel j "labels"))
+  | "id2grp" => pure (.idToGroup (← listF (asPair asStr asStr) j "map"))
+  | "grp2ids" => pure (.groupToIds (← listF (asPair asStr (asList asStr)) j "map"))
+  | s => .error s!"bad labeler kind {s}"
+
+def asEvents (j : Json) : R Events := asList (asOpt (asPair asStr asStr)) j
+
+def asOp (j : Json) : R Op := do
+  match (← strF j "op") with
+  | "partition" =>
+    pure (.partition (← asLabeler (← fld j "f")) (← boolF j "remove_empty") (← boolF j "ignore_none"))
+  | "collapse" =>
+    pure (.collapse (← asLabeler (← fld j "f")) (← boolF j "norm") (← natF j "min_group_size") (← boolF j "icm"))
+  | "otm" =>
+    pure (.otm (← listF asEvents j "events") ((← strF j "mode") == "divide") (← boolF j "strict")
+      (← boolF j "icm") (← strF j "md_key"))
+  | s => .error s!"bad op {s}"
+
+def asShape (j : Json) : R (Nat × Nat) := asPair asNat asNat j
+
+def asOut (j : Json) : R Out := do
+  match optFld j "error", optFld j "parts", optFld j "table" with
+  | some e, _, _ => pure (.error (asErr (← asStr e)))
+  | _, some ps, _ =>
+    pure (.parts (← asList (fun p => do pure ((← asLabel (← fld p "label")), (← asTable (← fld p "table")))) ps))
+  | _, _, some t => pure (.table (← asTable t) (← asShape (← fld j "shape")))
+  | _, _, _ => .error "bad outcome"
+
+def outToJson : Out → Json
+  | .error e => Json.mkObj [("error", .str e.name)]
+  | .parts ps => Json.mkObj [("parts", .arr (ps.map (fun p =>
+      Json.mkObj [("label", labelToJson p.1), ("table", tableToJson p.2)])).toArray)]
+  | .table t sh => Json.mkObj [("table", tableToJson t), ("shape", .arr #[toJson sh.1, toJson sh.2])]
+
+/-- request: {"op":…, "axis":…, "table":…, …parameters…, "out": observed outcome}
+    answer: {"holds", "clause", "agree", "model", "model_holds"} -/
+def handle (req : Json) : R Json := do
+  let t ← asTable (← fld req "table")
+  let ax ← axisF req "axis"
+  let op ← asOp req
+  let out ← asOut (← fld req "out")
+  let m := model t ax op
+  let cs := clauses t ax op out
+  let mj := outToJson m
+  pure (Json.mkObj [("holds", .bool cs.ok),
+    ("clause", match cs.firstFail with | some c => .str c | none => .null),
+    ("model_holds", .bool (holds t ax op m)),
+    ("agree", .bool (mj.compress == (outToJson out).compress)), ("model", mj)])
+
 end Biom.C11
